@@ -19,7 +19,7 @@ EXPLANATION = ("Necessary structural clauses of C02 decided from MIR/HIR facts a
                "with an inline prefix always records its length; (R8) the offset width of the indexed value store covers what is "
                "written with it. Value equality for any entry is not decided."
                " (R1 fold) the sign-folding helper shifts under a comparison with a constant bound; (R3 array-length-measured) the value sizing the array length column is `<array>.size` on every arm; (R10) reader property offsets are the running sum of the sizes before, read before the accumulator is advanced."
-               ' Added later: (R11) writer and reader agree on where a variant ends; (R12) the inline prefix of an array is bounded by 31 before it is packed; (R13) entries equal on every sort key compare Equal; (R14) sizes are compared before they are narrowed (reader); (R15) every value handed to a store handle is registered in the store; (R8) the offset width comes from the total size only. (R16) the declared width of an integer column comes from the sizing pass alone.')
+               ' Added later: (R11) writer and reader agree on where a variant ends; (R12) the inline prefix of an array is bounded by 31 before it is packed; (R13) entries equal on every sort key compare Equal; (R14) sizes are compared before they are narrowed (reader); (R15) every value handed to a store handle is registered in the store; (R8) the offset width comes from the total size only. (R16) the declared width of an integer column comes from the sizing pass alone. (R5) a window handed on as a plain range begins at offset() and spans count() entries; (R17) every value counted in Property::process is also sized on every path.')
 ASSUMPTIONS = ["byteorder read_int sign-extends", "rustc MIR/HIR construction and trait resolution", "reference table for the entry encoding"]
 
 SIGNED = r"<(i8|i16|i32|i64|i128|isize)>"
@@ -417,6 +417,23 @@ def r5_index_window(cx):
         cl = [c for c in F.closures_of(g) if "blocks" in c and F.body(c).calls(r"Reader::get_byte_slice$")]
         ok = len(th) == 1 and len(cl) == 1 and ("call", iv[0][0]) in gb.origins(th[0][1]["args"][0]) and ("field", "entry_count") in gb.origins(iv[0][1]["args"][1])
     cx.ob("R5", "R5/PlainStore.get_entry_reader", ok, g, "the entry bytes are cut only when idx.is_valid(layout.entry_count)")
+    # a window handed on as a plain range keeps its bounds: begin = offset(), size = count()
+    for h in F.fns:
+        if "blocks" not in h or h.get("kind") == "closure" or not re.search(r"range::Range<[\w:]*EntryIdx>$", h["locals"][0]["ty"]):
+            continue
+        hb = F.body(h)
+        offs = hb.calls(r"RangeTrait>::offset$|Index::offset$")
+        cnts = hb.calls(r"RangeTrait>::count$|Index::count$")
+        if not offs or not cnts:
+            continue
+        ok = False
+        for _, t in hb.calls(r"range::Range::<[^>]*>::new_from_size::"):
+            ok = ok or (hb.derives_from_call(t["args"][0], r"::offset$") and not hb.derives_from_call(t["args"][0], r"::count$")
+                        and hb.derives_from_call(t["args"][1], r"::count$") and not hb.derives_from_call(t["args"][1], r"::offset$"))
+        for _, t in hb.calls(r"range::Range::<[^>]*>::new$"):
+            ok = ok or (hb.derives_from_call(t["args"][0], r"::offset$") and not hb.derives_from_call(t["args"][0], r"::count$")
+                        and hb.derives_from_call(t["args"][1], r"::count$") and hb.derives_from_call(t["args"][1], r"::offset$"))
+        cx.ob("R5", "R5/window-as-range@%s" % h["name"].split("::<impl ")[0], ok, h, "a window converted to a plain range begins at offset() and spans count() entries (end = offset + count)")
 
 
 def r6_order(cx):
@@ -828,7 +845,31 @@ def r16_declared_width_comes_from_the_sizing_alone(cx):
               "the size of a layout %s comes from the PropertySize of the schema property (fields on the way: %s; byte sizes forced: %s)" % (variant, sorted(fields), forced))
 
 
+def r17_every_value_takes_part_in_the_sizing(cx, rule="R17"):
+    """'integers of any magnitude': the width of a column is the width of the largest value seen, so every value the
+    schema is shown reaches the width tracker. In Property::process each value that is counted (ValueCounter::process:
+    "is this column constant?") is also sized (PropertySize::process) on every path -- a value skipped by the sizing (the
+    first one, while the column still looks constant) is written truncated if it was the largest."""
+    F = cx.F
+    f = F.one(impl_self="schema::property::Property", item="process", closure=False)
+    b = F.deep_body(f, only=r"schema::property::Property::<", closures=True)
+    cs = b.calls(r"ValueCounter::<.*>::process$")
+    ss = {i for i, _ in b.calls(r"PropertySize::<.*>::process$")}
+    if len(cs) < 5 or len(ss) < 5:
+        raise AnchorLost("Property::process: %d counted / %d sized values" % (len(cs), len(ss)))
+    bad = []
+    for c, t in cs:
+        if any(b.dominates(s_, c) for s_ in ss if s_ != c):
+            continue
+        if b.must_pass_before_return(ss, start=c, avoid=b.panic_blocks(), success_only=False):
+            continue
+        bad.append(t.get("ln"))
+    cx.ob(rule, rule + "/Property.process/counted-values-are-sized", not bad, f,
+          "%d values counted in Property::process, each also reaches PropertySize::process on every path (not sized on some path: lines %s)" % (len(cs), bad or "none"))
+
+
 RULES = [
+    ("R17", r17_every_value_takes_part_in_the_sizing, 1),
     ("R16", r16_declared_width_comes_from_the_sizing_alone, 2),
     ("R15", r15_every_value_is_registered, 1),
     ("R14", r14_sizes_are_compared_before_they_are_narrowed, 1),
